@@ -14,8 +14,8 @@ from .. import progcheck, replay, tlc
 
 def plans(tier):
     if tier == "quick":
-        return [("d1-index-1d-q", 6, 2), ("d1-index-nd", 3, 1), ("d1-advindex", 3, 1), ("d2-advindex-after", 1, 6)]
-    return [("d1-index-1d", 16, 1), ("d1-index-nd", 16, 1), ("d1-advindex", 16, 1), ("d2-advindex-after", 3, 1)]
+        return [("d1-index-1d-q", 6, 2), ("d1-index-nd", 3, 1), ("d1-index-none", 2, 2), ("d1-advindex", 3, 1), ("d2-advindex-after", 1, 6)]
+    return [("d1-index-1d", 16, 1), ("d1-index-nd", 16, 1), ("d1-index-none", 8, 1), ("d1-advindex", 16, 1), ("d2-advindex-after", 3, 1)]
 
 
 def run(chk):
